@@ -31,3 +31,6 @@ def run(ctx, rep):
     more4.rule_busy_fnz(mod, rep)
     more4.rule_int_work_fill(mod, rep)
     more4.rule_complex_nonzero(mod, rep)
+    from ..rules import more5
+    more5.rule_busy_walk(mod, rep)
+    more5.rule_supno_done(mod, rep)
